@@ -350,9 +350,20 @@ def c04_5(ck, prog):
                     anchor = c['args'][1]
                     good = is_first_link(anchor)
                     if not good and is_ref(anchor):
-                        # the anchor variable was loaded from the head in this block, after the last edit
-                        for j in range(i - 1, -1, -1):
-                            e2 = evs[j]
+                        # the anchor variable was loaded from the head on the straight-line code leading here
+                        # (this block and its chain of single predecessors), after the last edit
+                        hist = list(evs[:i])
+                        pb = bid
+                        preds = f.preds()
+                        live = f.reachable_blocks()
+                        for _hop in range(6):
+                            ps = [x for x in preds.get(pb, []) if x in live]
+                            if len(ps) != 1 or len(f.succs(ps[0])) != 1:
+                                break
+                            pb = ps[0]
+                            hist = list(f.blocks[pb]['events']) + hist
+                        for j in range(len(hist) - 1, -1, -1):
+                            e2 = hist[j]
                             if e2['ev'] == 'call' and e2['e'].get('callee') in EDIT and owners_arg(e2['e']):
                                 break
                             hit = [rhs for l, h, rhs in written_lvalues(e2)
